@@ -75,7 +75,8 @@ Definition t_fold (o : oracles) (a b : bytes) : bool :=
 Definition m_params (o : oracles) : params :=
   mkParams c_receipt_key c_ack_key c_commitment_key c_nextseq_key c_valid_name
            (t_decode o) (t_pack o) (t_sha o) (t_decode_ack o) (t_pack_ack o) (t_verify o) (t_bech32 o) (t_fold o).
-Definition m_exec (o : oracles) := exec (m_params o).
+(** one delivered message: the messages' stateless ValidateBasic, then the handler *)
+Definition m_exec (o : oracles) := deliver (m_params o).
 
 (** ** cases *)
 Record ostep := mkOStep {
@@ -84,7 +85,8 @@ Record ostep := mkOStep {
   os_delta : list (bytes * option bytes);        (* observed change of the packet families (None = deleted) *)
   os_unchanged : bool;                           (* observed: full xibc + evm + bank dumps identical before/after *)
   os_cseq : list (bytes * N);                    (* observed packet contract getNextSequenceSend(dst) *)
-  os_ackstatus : list (bytes * N * N) }.         (* observed getAckStatus(dst, seq) of packets sent from here *)
+  os_ackstatus : list (bytes * N * N);           (* observed getAckStatus(dst, seq) of packets sent from here *)
+  os_emitted : list bytes }.                     (* accepted EVM transaction: bytes of its PacketSent logs as EMITTED *)
 
 Record chain_init := mkChain {
   ci_name : bytes; ci_clients : alist ctype; ci_relayers : alist (list bytes * list bytes);
@@ -228,6 +230,8 @@ Definition fails (b : bool) (k : nat) : list nat := if b then [] else [k].
     17 a commitment disappeared without an accepted ack of exactly that packet C05
     18 second acknowledgement of the same packet accepted                      C05
     23 an acknowledgement appeared that is not the one of an accepted receive of exactly that triple   C05
+    24 an accepted transaction's PacketSent log whose bytes do not decode, or whose triple does not hold
+       sha256(emitted bytes) as commitment afterwards                          C04
     19 accepted receive/ack not verified (client API or low-level recomputation false, no client, stored
        commitment differs)                                                     C02 *)
 Definition mon_step (o : oracles) (m : mchain) (st : ostep) : list nat * mchain :=
@@ -255,6 +259,12 @@ Definition mon_step (o : oracles) (m : mchain) (st : ostep) : list nat * mchain 
     end in
   let k14 := fails (forallb (fun dn => match obs_next_seq after (m_name m) (fst dn) with
                                        | Some n => n =? snd dn | None => false end) (os_cseq st)) 14 in
+  (* C04: the commitment is the hash of the bytes the packet contract EMITTED (not only of the chain's re-pack) *)
+  let k24 := fails (negb accepted ||
+                    forallb (fun bz => let '(p, err) := t_decode o bz in
+                                       negb err &&
+                                       match aget (c_commitment_key (p_src p) (p_dst p) (p_seq p)) after with
+                                       | Some c => bytes_eqb c (t_sha o bz) | None => false end) (os_emitted st)) 24 in
   (* message-specific *)
   let '(kmsg, recvd', acked') :=
     match os_act st with
@@ -318,7 +328,7 @@ Definition mon_step (o : oracles) (m : mchain) (st : ostep) : list nat * mchain 
                            accepted && bytes_eqb (fst kv) (c_commitment_key (p_src p) (p_dst p) (p_seq p))
                            && match t_pack o p with Some bz => bytes_eqb (snd kv) (t_sha o bz) | None => false end
                        | _ => false end) gone) 17 in
-  (k12 ++ k20 ++ k16 ++ k13 ++ k14 ++ kmsg ++ k17 ++ k23, mkM (m_name m) clients' after recvd' acked').
+  (k12 ++ k20 ++ k16 ++ k13 ++ k14 ++ k24 ++ kmsg ++ k17 ++ k23, mkM (m_name m) clients' after recvd' acked').
 
 Fixpoint mon_steps (o : oracles) (i : nat) (ms : list mchain) (l : list ostep) : list (nat * nat) :=
   match l with
